@@ -1677,6 +1677,10 @@ def go_parse_check(ctx):
                                                            "what": "deadline/depth chosen by `go` differs from the model of doGo"}, found=False)
 
 
+LOCKED_POSITIONS = ["8/4k3/8/1p1p1p1p/pPpPpPpP/P1P1P1P1/8/4K3 w - - 0 1", "8/4k3/8/1p1p1p1p/pPpPpPpP/P1P1P1P1/8/4K3 b - - 0 1",
+                    "4k3/3b4/8/1p1p1p1p/pPpPpPpP/P1P1P1P1/3B4/4K3 w - - 0 1"]
+
+
 def wallclock_check(ctx):
     """bestmove no later than the deadline plus the minimal depth-1 search (measured, exploration)"""
     n = ctx.size(6, 60)
@@ -1700,6 +1704,12 @@ def wallclock_check(ctx):
         finally:
             s.kill()
     items = [(f, ctx.rng.choice([60, 120, 300])) for f, _ in pool]
+    # locked positions without any capture or promotion in the whole tree: the leaves never enter the quiescence
+    # move loop, so only the polls of the full-width loops can notice the deadline; budgets long enough for the
+    # deadline to fall deep inside a root-move subtree
+    for f in LOCKED_POSITIONS:
+        for T in ([400, 900, 1500] if ctx.quick else [300, 400, 650, 900, 1200, 1500, 2100]):
+            items.append((f, T))
     res = parallel_map(one, items, workers=4)
     worst = 0.0
     for (fen, T), r in zip(items, res):
@@ -2508,6 +2518,42 @@ def follow_game_check(ctx, pool):
                                                        "fresh": fresh[-3:], "after_history": after[-3:]})
 
 
+def stopped_search_position_check(ctx, n):
+    """C02, last sentence (un-making moves during search restores the position bit for bit), on the path the perft
+    tables never take: a search ENDED BY `stop` deep inside the tree must have taken back every move it made -
+    position dump and legal moves before and after are compared"""
+    pool = small_pool(ctx, n, max_men=28)
+    items = [(f, 0.25 + ctx.rng.random() * 0.9) for f, _ in pool] + [(KIWI_FEN, 1.0), (START_FEN + " moves e2e4 e7e5 g1f3 b8c6", 1.2)]
+
+    def one(item):
+        f, delay = item
+        s = Session()
+        try:
+            s.send(f"position {f}")
+            before, st0 = snapshot_text(s)
+            s.send("go infinite")
+            time.sleep(delay)
+            s.send("stop")
+            got, st = wait_bestmove(s, 20.0)
+            if st != "match":
+                return ("nobest", crash_line(s) or st)
+            after, st1 = snapshot_text(s)
+            return ("ok", before, after)
+        finally:
+            s.kill()
+    res = parallel_map(one, items, workers=8)
+    ctx.co["co_unmake_after_stop"] = len(items)
+    for (f, delay), r in zip(items, res):
+        ctx.case(f"stopkeep|{f}|{delay:.2f}")
+        ctx.bump("stopped_search_unmake")
+        lines = [f"position {f}", "tostr", "perft 1", "go infinite", f"<sleep {delay:.2f}s>", "stop", "<wait for bestmove>", "tostr", "perft 1"]
+        if r is None or r[0] != "ok":
+            continue      # no bestmove at all: C03/C12's subject
+        if r[1] != r[2]:
+            ctx.violation(f"unmake-stop:{f}", {"kind": "history", "lines": lines, "what": "a search ended by `stop` did not take back all its moves: the engine's position (dump / legal moves) differs from the one before the search",
+                                                "before": r[1][-6:], "after": r[2][-6:]})
+
+
 def snapshot_text(s):
     s.send("isready")
     s.read_until(lambda l: l == "readyok", 20.0)
@@ -2850,6 +2896,10 @@ FORTRESS = [
     "1k6/p1p1p1p1/P1P1P1P1/8/8/p1p1p1p1/P1P1P1P1/1K6 b - - 0 90",
     "6k1/1p1p1p1p/1P1P1P1P/8/8/1p1p1p1p/1P1P1P1P/6K1 w - - 0 1",
     "k7/p1p1p1p1/P1P1P1P1/8/8/p1p1p1p1/P1P1P1P1/7K b - - 0 9000",
+    # narrower still: all pawns blocked, bishops walled in, kings shuffle between two squares, one spare tempo each -
+    # iterative deepening runs through dozens of iterations per second here
+    "k1b5/1p1p4/1P1P4/8/7p/1p1p4/1P1P3P/K1B5 w - - 0 1",
+    "k1b5/1p1p4/1P1P4/8/7p/1p1p4/1P1P3P/K1B5 b - - 0 1",
 ]
 
 
@@ -2893,7 +2943,7 @@ def check_C18(ctx):
     for f in FORTRESS:
         for d in ([maxd - 1, maxd, maxd + 1, 100] if not ctx.quick else [maxd, 100]):
             items.append((f"fortress depth {d}", [f"position {f}", f"go depth {d}"], 60.0 if ctx.quick else 240.0, f, None))
-        items.append(("fortress infinite", [f"position {f}", "go infinite"], 6.0 if ctx.quick else 30.0, f, None))
+        items.append(("fortress infinite", [f"position {f}", "go infinite"], 12.0 if ctx.quick else 40.0, f, None))
         items.append(("fortress clock", [f"position {f}", "go wtime 60000 btime 60000"], 10.0, f, None))
     # long games through `position ... moves` (hundreds of plies), then search
     games = gens.playouts(rng, [START_FEN], ctx.size(6, 60), 700)
@@ -3144,7 +3194,7 @@ def with_trace(fn, nq, nt):
 
 CHECKS = {
     "C01": {"fn": check_C01, "rule": "positions from the suite FENs, targeted families, spec playouts, constructive placements (promoted material, castling/ep fields), one-piece mutations and colour mirrors, all filtered by Spec.Legal; a case is non-trivial if the position has at least one legal move; distinct by FEN"},
-    "C02": {"fn": check_C02, "rule": "biased random playouts of the Lean specification from start/suite/targeted/constructive positions; engine PushMove/PopMove snapshots vs model vs Spec.apply at every ply; distinct by (start, first 40 moves)"},
+    "C02": {"fn": lambda ctx: (check_C02(ctx), stopped_search_position_check(ctx, ctx.size(10, 300))), "rule": "biased random playouts of the Lean specification from start/suite/targeted/constructive positions; engine PushMove/PopMove snapshots vs model vs Spec.apply at every ply; distinct by (start, first 40 moves)"},
     "C06": {"fn": check_C06, "rule": "same position pool as C01; tactical list, tactical flag, both counters vs specification; Perft/PerftTactical depth 2-4 vs Spec.paths; UCI perft/tperft divide text for n=1,2; non-trivial if the position has a tactical move"},
     "C09": {"fn": check_C09, "rule": "attack rows: one attacker (12 kinds) on any square, optional single blocker on any other square, all 64 targets per row (sampled in quick, exhaustive otherwise) plus attacked-square maps of full positions; distinct by placement"},
     "C03": {"fn": with_trace(check_C03, 16, 200), "rule": "legal non-terminal positions (by FEN and by move list) x go forms (depth, movetime incl. 1 ms, clocks incl. 1 ms and negative, movestogo, infinite+stop at several delays, bare go); one case = (position, form); count of bestmove lines and legality per Spec.legalMoves"},
